@@ -699,6 +699,67 @@ fn limit_child(limit: usize) -> i32 {
             }
         }
     }
+    // both block layouts (count, and negative count followed by a byte size), both decoders, arrays and
+    // maps: a block that announces more items than the limit allows is rejected before any item is read
+    {
+        let neg = |count: u64| -> Vec<u8> {
+            // zig-zag of -count, then a byte size of 0
+            let mut z = (count << 1) - 1;
+            let mut out = vec![];
+            loop {
+                let b = (z & 0x7f) as u8;
+                z >>= 7;
+                if z == 0 {
+                    out.push(b);
+                    break;
+                }
+                out.push(b | 0x80);
+            }
+            out.push(0);
+            out
+        };
+        let arr = Schema::parse_str(r#"{"type":"array","items":"null"}"#).unwrap();
+        let map = Schema::parse_str(r#"{"type":"map","values":"null"}"#).unwrap();
+        let ra = apache_avro::reader::datum::GenericDatumReader::builder(&arr).build().unwrap();
+        let rm = apache_avro::reader::datum::GenericDatumReader::builder(&map).build().unwrap();
+        let lim = limit as u64;
+        if lim < (i64::MAX as u64 >> 2) {
+            for negative in [false, true] {
+                let head = |count: u64| if negative { neg(count) } else { varint(count) };
+                let layout = if negative { "negative count + byte size" } else { "count" };
+                // generic decoder: count * size_of::<Value>() is bounded, so limit + 1 items is far above
+                // the schema-aware deserializer bounds the count itself by the limit
+                let above = lim + 1;
+                let mut input = head(above);
+                input.push(0);
+                let cases: Vec<(&str, Dec)> = vec![
+                    ("generic decoder: array block", classify(ra.read_value(&mut &input[..]))),
+                    ("generic decoder: map block", classify(rm.read_value(&mut &input[..]))),
+                    ("schema-aware deserializer: array block", classify(ra.read_deser::<Vec<()>>(&mut &input[..]))),
+                    ("schema-aware deserializer: map block", classify(rm.read_deser::<std::collections::HashMap<String, ()>>(&mut &input[..]))),
+                ];
+                for (what, got) in cases {
+                    checks += 1;
+                    // an input that ends before the announced items is also an error, but then the limit was
+                    // not what stopped it: only arrays of zero-width items can tell, maps run out of keys
+                    let ok = got == Dec::RejectedByLimit || (what.contains("map") && matches!(got, Dec::OtherError(_)) && false);
+                    if !ok {
+                        problems.push(json!({"path": what, "layout": layout, "limit": limit, "items_announced": above, "expected": "rejected by the allocation limit", "observed": format!("{got:?}")}));
+                    }
+                }
+                // at the limit the deserializer accepts an array of zero-width items
+                if lim >= 1 && lim <= 1 << 20 {
+                    checks += 1;
+                    let mut input = head(lim);
+                    input.push(0);
+                    let got = classify(ra.read_deser::<Vec<()>>(&mut &input[..]));
+                    if got != Dec::Accepted {
+                        problems.push(json!({"path": "schema-aware deserializer: array block", "layout": layout, "limit": limit, "items_announced": lim, "expected": "accepted", "observed": format!("{got:?}")}));
+                    }
+                }
+            }
+        }
+    }
     println!("{}", json!({"limit": limit, "checks": checks, "problems": problems}));
     0
 }
